@@ -40,7 +40,12 @@ def lattice(tier):
     for mn, mx in bounds:
       yield "binary", dict(use_01=use01, alpha=alpha, min_po2_exponent=mn,
                            max_po2_exponent=mx)
-  for alpha, thr in itertools.product(alphas, (None, F(1, 2))):
+  thrs = (None, F(1, 2), 0)
+  if tier == "thorough":
+    thrs += (F(1, 8), 2, F(0))
+  for alpha, thr in itertools.product(alphas, thrs):
+    if isinstance(alpha, str) and thr is not None:
+      continue   # rejected by the quantizer's own assertion
     yield "ternary", dict(alpha=alpha, threshold=thr)
   for alpha in (None, F(2), "auto", "auto_po2"):
     yield "stochastic_binary", dict(alpha=alpha)
@@ -177,7 +182,13 @@ def run(rep, repo, tier):
         if t is None:
           dt = b.obj.attrs.get("default_threshold")
           t = F(dt) if dt is not None else None
-        if t is not None:
+        if t is not None and t == 0:
+          # no dead band: every non-zero input keeps its sign
+          rep.check(pos.const_value() == 1 and neg.const_value() == -1,
+                    "R2", unit, "threshold-orientation",
+                    "with threshold 0: x>0 -> %r, x<0 -> %r (expected 1 / "
+                    "-1)" % (pos, neg), loc=loc, instance=cfg, facts=facts)
+        elif t is not None:
           e = t / 1000
           inner = on(-t + e, t - e)
           up = on(t, None, 1)
